@@ -144,7 +144,7 @@ func (vc *VC) prelude() {
 	vc.decl("s:Slice", fmt.Sprintf("(declare-datatypes ((Slice 0)) (((mk-slice (sref Int) (soff %s) (slen_ %s) (scap %s)))))", gi, gi, gi))
 	vc.decl("s:Iface", "(declare-datatypes ((Iface 0)) (((mk-iface (ityp Int) (ival Int)))))")
 	if !vc.isBV() {
-		vc.assume("(forall ((s Str)) (! (and (<= 0 (slen s)) (<= (slen s) 9223372036854775807)) :pattern ((slen s))))")
+		vc.assume("(forall ((s Str)) (! (and (<= 0 (slen s)) (<= (slen s) 281474976710656)) :pattern ((slen s))))")
 		// uninterpreted bit operations for int mode (exact cases are rewritten before these are used)
 		for _, f := range []string{"band", "bor", "bxor", "bshl", "bshr"} {
 			vc.decl("f:"+f, fmt.Sprintf("(declare-fun %s (Int Int) Int)", f))
@@ -417,7 +417,7 @@ func (vc *VC) strLen(t string) string {
 			vc.assume(fmt.Sprintf("(bvsge %s (_ bv0 64))", r))
 			vc.assume(fmt.Sprintf("(bvslt %s (_ bv%d 64))", r, int64(1)<<40))
 		} else {
-			vc.assume(fmt.Sprintf("(and (<= 0 %s) (<= %s 9223372036854775807))", r, r))
+			vc.assume(fmt.Sprintf("(and (<= 0 %s) (<= %s 281474976710656))", r, r))
 		}
 	}
 	return r
